@@ -3,6 +3,7 @@ package props
 import (
 	"context"
 	"fmt"
+	"os"
 	"sort"
 	"strings"
 	"sync/atomic"
@@ -456,6 +457,10 @@ func c10Inputs(r *wk.Rand, shape *gen.Shape) []any {
 	return append(extra, ins...)
 }
 
+// traceC10 (VERIF_TRACE=1, for replays) prints every mutant before it is tried, so that a fatal crash can be
+// matched to the description that caused it.
+var traceC10 = os.Getenv("VERIF_TRACE") != ""
+
 func runC10(c *wk.Ctx) {
 	c.Meta("rule", "valid descriptions (SelfSerialize of generated scopes and of generated plugin schemas with several steps, outputs, signal handlers and emitters; hand-written tricky reference shapes) are treated as mutable trees. EVERY node of a description receives every applicable single structural mutation: delete, retype (nil / string / int / map / list), rename the key, duplicate over a sibling, re-point (object ids, root, reference ids and namespaces, discriminator field names to another / a missing / an empty name), each of the 15 type ids, unparsable / wrongly typed / empty defaults, invalid patterns, flipped inlining and boolean flags, negative and 2^63 bounds, zero and negative unit multipliers; pairs of mutations are sampled; grammar-free random trees are added. Each mutant goes through UnserializeScope (+ApplySelf) or UnserializeSchema, also after a CBOR encode/decode, and through Client.ReadSchema from a fake server's hello. Whatever is accepted is exercised: Unserialize / data-mode ValidateCompatibility / Validate / Serialize with valid, perturbed and hostile inputs on the scope or on every step input, output and signal data schema, plus ReflectedType, ValidateReferences, Properties, GetDefaults, SelfSerialize. Every call is journalled and guarded. distinct = hash(description, mutation); non-trivial = the mutant differs from the original")
 	c.Meta("assumptions", []string{"a scope returned by UnserializeScope is linked with ApplySelf before use (part of loading it); an unlinked reference to an EXTERNAL namespace is the caller's to link and is not exercised"})
@@ -540,6 +545,9 @@ func runC10(c *wk.Ctx) {
 		d0hash := fmt.Sprint(wk.Hash64(cmpx.Canon(d0)))
 		tryMutant := func(m any, what string, viaCBOR bool) {
 			c.Count("mutants")
+			if traceC10 {
+				fmt.Fprintf(os.Stderr, "TRACE mutant %s viaCBOR=%v %s\n", what, viaCBOR, clipStr(cmpx.Canon(m), 6000))
+			}
 			c.Eval(wk.Hash64(d0hash, what, fmt.Sprint(viaCBOR)), true)
 			wit := map[string]any{"original_schema": clipStr(descr, 900), "mutation": what, "description": lazyCanon{m}, "via_cbor": viaCBOR}
 			if viaCBOR {
